@@ -1482,7 +1482,7 @@ pub fn object_group_by(
     // Now create the arrays and set them on the result object
     for (key, items) in group_keys.into_iter().zip(group_items.into_iter()) {
         let arr = interp.create_array_from(&guard, items);
-        let prop_key = PropertyKey::String(interp.intern(&key));
+        let prop_key = interp.property_key(&key);
         result
             .borrow_mut()
             .set_property(prop_key, JsValue::Object(arr));
